@@ -19,6 +19,7 @@ package concurrent
 
 import (
 	"context"
+	"errors"
 	"sync"
 	"time"
 
@@ -41,11 +42,14 @@ const (
 	sleepInterval = time.Millisecond * 5
 )
 
+// errPoolStopped is reported to the task which is submitted after pool stopped.
+var errPoolStopped = errors.New("worker pool is stopped")
+
 // Task represents a task function to be executed by a worker(goroutine).
 type Task struct {
 	// handle executes task function.
 	handle func()
-	// panicHandle executes callback if task happens panic.
+	// panicHandle executes callback if task happens panic or task is rejected.
 	panicHandle func(err error)
 
 	createTime time.Time
@@ -127,14 +131,26 @@ func NewPool(name string, maxWorkers int, idleTimeout time.Duration, statistics 
 }
 
 func (p *workerPool) Submit(ctx context.Context, task *Task) {
-	if task.handle == nil || p.Stopped() {
+	if task.handle == nil {
+		return
+	}
+	if p.Stopped() {
+		p.reject(task, errPoolStopped)
 		return
 	}
 	select {
 	case <-ctx.Done():
 		p.statistics.TasksRejected.Incr()
+		p.reject(task, ctx.Err())
 		return
 	case p.tasks <- task:
+	}
+}
+
+// reject tells the owner of the task that it will never be executed, the owner may be waiting for its completion.
+func (p *workerPool) reject(task *Task, err error) {
+	if task.panicHandle != nil {
+		task.panicHandle(err)
 	}
 }
 
